@@ -48,29 +48,10 @@ func (c *Ctx) refusalReason(l lit, fn *ssa.Function) string {
 					return "cri-decode-error"
 				}
 			}
-			if phi, isPhi := e.(*ssa.Phi); isPhi && types.Identical(phi.Type(), types.Universe.Lookup("error").Type()) {
-				// decoder error φ: every non-nil edge is the result of a decoder call
-				okAll := true
-				for _, ed := range phi.Edges {
-					if isNilConst(ed) {
-						continue
-					}
-					call, isCall := ed.(*ssa.Call)
-					if !isCall {
-						okAll = false
-						continue
-					}
-					nm := ""
-					if call.Call.IsInvoke() {
-						nm = call.Call.Method.Name()
-					} else if f := call.Call.StaticCallee(); f != nil {
-						nm = f.Name()
-					}
-					if !strings.HasPrefix(nm, "Decode") {
-						okAll = false
-					}
-				}
-				if okAll {
+			if types.Identical(e.Type(), types.Universe.Lookup("error").Type()) {
+				// decoder error: every non-nil source of the value is the result of a decoder call — directly, through
+				// a φ, or through a helper / function literal of the module whose returned errors are such values
+				if _, isNil := e.(*ssa.Const); !isNil && c.decoderErr(e, 0) {
 					return "decoder-error"
 				}
 			}
@@ -615,4 +596,54 @@ func ruleBanCapAgreement(c *Ctx, r *Rule) {
 		}
 	}
 	r.Ob(okDecay, c.fnName(m)+"|decay-by-own-threshold", m.Pos(), "each maintenance round lowers a source's counter by that source's own threshold")
+}
+
+func (c *Ctx) decoderErr(v ssa.Value, d int) bool {
+	if d > 6 {
+		return false
+	}
+	switch x := v.(type) {
+	case *ssa.Const:
+		return x.IsNil()
+	case *ssa.Phi:
+		for _, e := range x.Edges {
+			if e == v {
+				continue
+			}
+			if !c.decoderErr(e, d+1) {
+				return false
+			}
+		}
+		return true
+	case *ssa.Call:
+		nm := ""
+		var callee *ssa.Function
+		if x.Call.IsInvoke() {
+			nm = x.Call.Method.Name()
+		} else if f := x.Call.StaticCallee(); f != nil {
+			nm, callee = f.Name(), f
+		} else if mc, ok := x.Call.Value.(*ssa.MakeClosure); ok {
+			callee, _ = mc.Fn.(*ssa.Function)
+		}
+		if strings.HasPrefix(nm, "Decode") {
+			return true
+		}
+		if callee != nil && callee.Blocks != nil && c.inModule(callee) {
+			any := false
+			for _, ret := range returnsOf(callee) {
+				for _, rv := range retResults(ret) {
+					if types.Identical(rv.Type(), types.Universe.Lookup("error").Type()) {
+						any = true
+						if !c.decoderErr(rv, d+1) {
+							return false
+						}
+					}
+				}
+			}
+			return any
+		}
+	case *ssa.Extract:
+		return c.decoderErr(x.Tuple, d+1)
+	}
+	return false
 }
